@@ -109,6 +109,22 @@ def _run_driver(manifest_dir, cfg_name, features, out_dir, tgt_dir, src_hash, ex
     return r.stdout
 
 
+def _prune(parent, prefix, keep):
+    """keep only the most recently used fact directories of one configuration"""
+    try:
+        ds = [os.path.join(parent, d) for d in os.listdir(parent) if d.startswith(prefix)]
+    except OSError:
+        return
+    def age(d):
+        try:
+            return os.path.getmtime(os.path.join(d, "STAMP"))
+        except OSError:
+            return 0
+    ds.sort(key=age, reverse=True)
+    for d in ds[keep:]:
+        shutil.rmtree(d, ignore_errors=True)
+
+
 def ensure_facts(cfg_name, quiet=True):
     """Facts of /repo (lib + lib-as-test + tests/entry) for one feature configuration.
     Returns the directory with the JSON files."""
@@ -116,7 +132,9 @@ def ensure_facts(cfg_name, quiet=True):
         raise FactError("unknown configuration " + cfg_name)
     ensure_driver()
     src_hash = repo_hash()
-    out_dir = os.path.join(BUILD, "facts", cfg_name)
+    # one directory per (configuration, working-tree hash): concurrent checks against different trees
+    # (mutation / seed runs use VERIF_REPO) can never read each other's facts
+    out_dir = os.path.join(BUILD, "facts", "%s-%s" % (cfg_name, src_hash[:16]))
     tgt_dir = os.path.join(BUILD, "tgt-" + cfg_name)
     stamp = "%s %s %s" % (src_hash, _driver_id(), cfg_name)
     os.makedirs(BUILD, exist_ok=True)
@@ -124,7 +142,9 @@ def ensure_facts(cfg_name, quiet=True):
         fcntl.flock(lk, fcntl.LOCK_EX)
         sp = os.path.join(out_dir, "STAMP")
         if os.path.exists(sp) and open(sp).read() == stamp:
+            os.utime(sp, None)
             return out_dir
+        _prune(os.path.join(BUILD, "facts"), cfg_name + "-", keep=6)
         t0 = time.time()
         _run_driver(REPO, cfg_name, CONFIGS[cfg_name], out_dir, tgt_dir, src_hash, ["--tests"],
                     ["slotted_egraphs", "entry"], ["slotted-egraphs-", "slotted_egraphs-"])
@@ -145,7 +165,7 @@ def ensure_fixture_facts(name, quiet=True):
     ensure_driver()
     fx = os.path.join(VERIF, "fixtures", name)
     src_hash = repo_hash() + ":" + repo_hash(fx)
-    out_dir = os.path.join(BUILD, "facts", "fx-" + name)
+    out_dir = os.path.join(BUILD, "facts", "fx-%s-%s" % (name, hashlib.sha256(src_hash.encode()).hexdigest()[:16]))
     tgt_dir = os.path.join(BUILD, "tgt-fx-" + name)
     stamp = "%s %s" % (src_hash, _driver_id())
     os.makedirs(BUILD, exist_ok=True)
@@ -153,7 +173,9 @@ def ensure_fixture_facts(name, quiet=True):
         fcntl.flock(lk, fcntl.LOCK_EX)
         sp = os.path.join(out_dir, "STAMP")
         if os.path.exists(sp) and open(sp).read() == stamp:
+            os.utime(sp, None)
             return out_dir
+        _prune(os.path.join(BUILD, "facts"), "fx-%s-" % name, keep=3)
         # the fixture is built in a scratch copy whose manifest points at the repository under analysis;
         # its lock file must be the repository's
         work = os.path.join(BUILD, "fx-work-" + name)
